@@ -586,17 +586,10 @@ Fixpoint ops_ok (d : dstate) (os : list dop) : Prop :=
   | [] => True
   | o :: os' => op_valid o ∧ clock_fresh d o ∧ ops_ok (dapply d o).1 os'
   end.
-Theorem receiver_equals_origin os : ∀ d r, dok d → dok r → same_abs d r → ops_ok d os →
-  let res := origin_run d os in
-  dok res.1 ∧ Forall ev_valid res.2 ∧ same_abs res.1 (fold_left merge_event res.2 r).
+Lemma merge_event_dok r e : dok r → ev_valid e → dok (merge_event r e).
 Proof.
-  induction os as [|o os IH]; intros d r Hd Hr Hs Hok; cbn [origin_run fst snd fold_left]; [split; [done|]; split; [constructor|done]|].
-  destruct Hok as (Hv & Hf & Hok).
-  destruct (broadcast_complete d r o Hd Hr Hs Hv Hf) as [Hd' He].
-  destruct (dapply d o) as [d' [e|]] eqn:Hap; cbn [fst snd] in *.
-  - destruct He as [Hev Hs']. 
-    assert (Hr' : dok (merge_event r e)).
-    { clear -Hr Hev. destruct Hr as [[Hsf Hsv] Hsu [Hrf Hre]]. destruct Hev as (V1 & V2 & V3). split; cbn.
+  intros Hr Hev.
+  destruct Hr as [[Hsf Hsv] Hsu [Hrf Hre]]. destruct Hev as (V1 & V2 & V3). split; cbn.
       - clear -Hsf Hsv V1. revert Hsf Hsv. generalize (d_sess r). induction V1 as [|m ms Hm _ IHm]; intros l Hf Hv; cbn [merge_sessions_l]; [by split|].
         rewrite (proj2 (String.eqb_neq _ _) Hm). apply IHm.
         + unfold merge_session. destruct (alookup (m_sid m) l) as [old|]; [destruct (sess_ts old <? sess_ts m)|]; try done; by apply flat_ok_aset.
@@ -611,7 +604,23 @@ Proof.
         { destruct (ret_added x || is_removed (r_la x) (r_ld x)) eqn:E; [|by split].
           split; [by apply (flat_ok_aset ret_key _ x)|]. by apply (aset_values (λ v, ret_eff v = true ∧ ret_valid v)). }
         destruct Hst as [S1 S2]. unfold merge_ret1.
-        destruct (alookup (p_topic (r_pub x)) t) as [old|]; [destruct (ret_ts old <? ret_ts x)|]; by apply IHx. }
+        destruct (alookup (p_topic (r_pub x)) t) as [old|]; [destruct (ret_ts old <? ret_ts x)|]; by apply IHx.
+Qed.
+Lemma merge_events_dok es : ∀ r, dok r → Forall ev_valid es → dok (fold_left merge_event es r).
+Proof.
+  induction es as [|e es IH]; intros r Hr Hv; cbn [fold_left]; [done|]. apply Forall_cons in Hv as [He Hv].
+  apply IH; [by apply merge_event_dok|done].
+Qed.
+Theorem receiver_equals_origin os : ∀ d r, dok d → dok r → same_abs d r → ops_ok d os →
+  let res := origin_run d os in
+  dok res.1 ∧ Forall ev_valid res.2 ∧ same_abs res.1 (fold_left merge_event res.2 r).
+Proof.
+  induction os as [|o os IH]; intros d r Hd Hr Hs Hok; cbn [origin_run fst snd fold_left]; [split; [done|]; split; [constructor|done]|].
+  destruct Hok as (Hv & Hf & Hok).
+  destruct (broadcast_complete d r o Hd Hr Hs Hv Hf) as [Hd' He].
+  destruct (dapply d o) as [d' [e|]] eqn:Hap; cbn [fst snd] in *.
+  - destruct He as [Hev Hs']. 
+    assert (Hr' : dok (merge_event r e)) by (by apply merge_event_dok).
     destruct (IH d' (merge_event r e) Hd' Hr' Hs' Hok) as (I1 & I2 & I3). split; [done|]. split; [by constructor|done].
   - subst d'. by apply IH.
 Qed.
